@@ -31,7 +31,7 @@ type ilvStep struct {
 	It   int    `json:"it,omitempty"`   // next, cancel: number of the iterator (order of start)
 	Prog string `json:"prog,omitempty"` // start
 	In   string `json:"in,omitempty"`   // start: input spec
-	Ctx  string `json:"ctx,omitempty"`  // start: run (no context) | real (context.WithCancel) | count | sentinel (cancelled at poll K)
+	Ctx  string `json:"ctx,omitempty"`  // start: one of ilvCtxKinds: run (no context), real/cause/cause-child/cause-value (cancellable by a step), count/sentinel/custom (cancelled at poll K), already-done kinds, nodone-* (Done() == nil)
 	K    int    `json:"k,omitempty"`
 	Via  string `json:"via,omitempty"` // code | query
 }
@@ -47,6 +47,7 @@ type liveIter struct {
 	solo      *refRun
 	ctx       fctx // nil: started without a context
 	idx       int  // items taken
+	preDone   bool // its context was already done at RunWithContext
 	terminal  bool
 	how       string // what made it terminal
 	laterRuns int    // executions started after it became terminal
@@ -95,7 +96,7 @@ func (li *liveIter) canAdvance() bool {
 	switch {
 	case li.terminal, li.fired():
 		return true
-	case li.st.Ctx == "count" || li.st.Ctx == "sentinel":
+	case li.st.Ctx == "count" || li.st.Ctx == "sentinel" || li.st.Ctx == "custom":
 		return true // fires at poll K <= cap, or the run is finite
 	}
 	return li.solo.ended || li.idx < len(li.solo.items)
@@ -123,10 +124,20 @@ func (s *ilvState) start(st ilvStep) string {
 		} else {
 			li.it = p.code.Run(input)
 		}
-	case "real":
-		rc := newRealCtx()
+	case "real", "cause", "cause-child", "cause-value":
+		rc := newStdCtx(st.Ctx, 0)
 		li.ctx = rc
 		li.it = p.start(rc, st.Via, input)
+	case "precancelled", "pre-cause", "pre-cause-child", "deadline-cause", "timeout-cause", "deadline-cause-value", "raw:pre-cause", "raw:deadline-cause-child":
+		rc := newPreCancelled(st.Ctx) // already done at RunWithContext
+		li.ctx, li.preDone = rc, true
+		li.it = p.start(rc, st.Via, input)
+	case "nodone-todo", "nodone-custom", "nodone-value":
+		li.it = p.start(newNoDone(st.Ctx), st.Via, input) // Done() == nil: behaves like no context
+	case "custom":
+		pc := newPollCtx(st.K, errCustom)
+		li.ctx = pc
+		li.it = p.start(pc, st.Via, input)
 	case "sentinel":
 		pc := newPollCtx(st.K, errSentinel)
 		li.ctx = pc
@@ -194,8 +205,13 @@ func (s *ilvState) next(i int, c *ilvCase) string {
 		}
 		li.terminal, li.how = true, "false"
 	case isCtxErr:
-		switch li.st.Ctx {
-		case "real":
+		_, isStd := li.ctx.(*realCtx)
+		switch {
+		case li.preDone:
+			if li.idx != 0 {
+				return fmt.Sprintf("promptness: %s: %d items came before the error of a context that was done from the start", li.name(i), li.idx)
+			}
+		case isStd:
 			if !firedBefore || polls != 1 {
 				return fmt.Sprintf("promptness: %s: the context's error came back after %d polls of that call (cancelled before the call: %v); want its first step", li.name(i), polls, firedBefore)
 			}
@@ -210,7 +226,7 @@ func (s *ilvState) next(i int, c *ilvCase) string {
 		li.terminal, li.how = true, "context error"
 	default:
 		if firedBefore || li.fired() {
-			return fmt.Sprintf("promptness: %s: Next returned %s although its context is cancelled (ctx.Err() = %v)", li.name(i), got, li.ctx.Err())
+			return fmt.Sprintf("promptness: %s: Next returned %s although its context is cancelled (ctx.Err() = %v)%s", li.name(i), got, li.ctx.Err(), causeNote(li.ctx, v))
 		}
 		if li.idx >= len(li.solo.items) {
 			return fmt.Sprintf("prefix: %s emitted %s as item #%d; its solo run emits only %d items (ended: %v)", li.name(i), got, li.idx, len(li.solo.items), li.solo.ended)
@@ -307,6 +323,11 @@ func checkInterleave(c ilvCase) string {
 	}
 	return ""
 }
+
+// ilvCtxKinds: how the state machine starts an iterator.
+var ilvCtxKinds = []string{"run", "run", "real", "real", "count", "sentinel", "custom", "cause", "cause", "cause-child", "cause-value",
+	"precancelled", "pre-cause", "pre-cause-child", "deadline-cause", "timeout-cause", "deadline-cause-value", "raw:pre-cause", "raw:deadline-cause-child",
+	"nodone-todo", "nodone-custom", "nodone-value"}
 
 type ilvProg struct{ src, in string }
 
@@ -406,7 +427,7 @@ func interleaveScripted(n int) {
 							steps = append(steps, ilvStep{Op: "next", It: 0})
 						}
 					}
-					bctx := []string{"run", "real", "count"}[(idx/7)%3]
+					bctx := []string{"run", "real", "count", "cause", "pre-cause", "nodone-custom", "deadline-cause"}[(idx/7)%7]
 					steps = append(steps, ilvStep{Op: "start", Prog: b.src, In: b.in, Ctx: bctx, K: min(n, sb.total) + 1 - (idx/3)%2, Via: []string{"code", "query"}[idx%2]})
 					for x := 0; x < j; x++ {
 						steps = append(steps, ilvStep{Op: "next", It: 1})
@@ -469,9 +490,9 @@ func interleaveRapid(t *testing.T, n, checks int) {
 			p := rapid.SampledFrom(pool).Draw(t, "prog")
 			solo, _ := soloOf(p.src, p.in, n)
 			st := ilvStep{Op: "start", Prog: p.src, In: p.in,
-				Ctx: rapid.SampledFrom([]string{"run", "real", "real", "count", "sentinel"}).Draw(t, "ctx"),
+				Ctx: rapid.SampledFrom(ilvCtxKinds).Draw(t, "ctx"),
 				Via: rapid.SampledFrom([]string{"code", "query"}).Draw(t, "via")}
-			if st.Ctx == "count" || st.Ctx == "sentinel" {
+			if st.Ctx == "count" || st.Ctx == "sentinel" || st.Ctx == "custom" {
 				st.K = rapid.IntRange(1, min(n, solo.total)+1).Draw(t, "k")
 			}
 			do(st)
